@@ -278,6 +278,176 @@ mod driver {
         })
     }
 
+    // ---- DiversitySlots <-> flat leaves, in the order of checks/c13_engine.py::slots_template (values.flatten)
+    fn un(case: &Value, k: &str) -> u64 {
+        match case.get(k) {
+            Some(Value::Bool(b)) => *b as u64,
+            Some(v) => v.as_u64().unwrap_or(0),
+            None => 0,
+        }
+    }
+    const REGIONS: [GeographicRegion; 7] = [GeographicRegion::NorthAmerica, GeographicRegion::Europe, GeographicRegion::AsiaPacific, GeographicRegion::SouthAmerica,
+                                            GeographicRegion::Africa, GeographicRegion::Oceania, GeographicRegion::Unknown];
+    fn read_slots(case: &Value, label: &str) -> Option<DiversitySlots> {
+        use crate::security::{IPAnalysis, IPv4Analysis, UnifiedIPAnalysis};
+        if un(case, &format!("S.slots@{label}.present")) == 0 {
+            return None;
+        }
+        let l = |i: usize| un(case, &format!("S.slots@{label}.v{i}"));
+        let bytes4 = |o: usize| std::net::Ipv4Addr::new(l(o) as u8, l(o + 1) as u8, l(o + 2) as u8, l(o + 3) as u8);
+        let bytes16 = |o: usize| {
+            let mut b = [0u8; 16];
+            for i in 0..16 {
+                b[i] = l(o + i) as u8;
+            }
+            std::net::Ipv6Addr::from(b)
+        };
+        let country = |idx: usize| if l(idx) == 1 { Some(crate::security::verif_kani_security::driver::country_of(l(idx + 1))) } else { None };
+        let asn = |idx: usize| if l(idx) == 1 { Some(l(idx + 1) as u32) } else { None };
+        let ip = if l(0) == 1 {
+            Some(if l(1) == 0 {
+                UnifiedIPAnalysis::IPv4(IPv4Analysis { ip_addr: bytes4(2), subnet_24: bytes4(6), subnet_16: bytes4(10), subnet_8: bytes4(14), asn: asn(18), country: country(20),
+                                                       is_hosting_provider: l(22) != 0, is_vpn_provider: l(23) != 0, reputation_score: f64::from_bits(l(24)) })
+            } else {
+                UnifiedIPAnalysis::IPv6(IPAnalysis { subnet_64: bytes16(25), subnet_48: bytes16(41), subnet_32: bytes16(57), asn: asn(73), country: country(75),
+                                                     is_hosting_provider: l(77) != 0, is_vpn_provider: l(78) != 0, reputation_score: f64::from_bits(l(79)) })
+            })
+        } else {
+            None
+        };
+        let region = if l(80) == 1 { Some(REGIONS[(l(81) as usize).min(6)]) } else { None };
+        Some(DiversitySlots { ip, region })
+    }
+    fn flat_slots(s: Option<&DiversitySlots>) -> Value {
+        use crate::security::UnifiedIPAnalysis;
+        let s = match s {
+            Some(s) => s,
+            None => return Value::Null,
+        };
+        let mut v: Vec<Value> = vec![json!(0u64); 82];
+        let cid = |c: &Option<String>| c.as_ref().map(|t| u64::from_str_radix(t.trim_start_matches('C'), 16).unwrap_or(0)).unwrap_or(0);
+        if let Some(a) = &s.ip {
+            v[0] = json!(1u64);
+            match a {
+                UnifiedIPAnalysis::IPv4(a) => {
+                    v[1] = json!(0u64);
+                    for (o, ad) in [(2usize, a.ip_addr), (6, a.subnet_24), (10, a.subnet_16), (14, a.subnet_8)] {
+                        for (i, b) in ad.octets().iter().enumerate() {
+                            v[o + i] = json!(*b as u64);
+                        }
+                    }
+                    v[18] = json!(a.asn.is_some() as u64);
+                    v[19] = json!(a.asn.unwrap_or(0) as u64);
+                    v[20] = json!(a.country.is_some() as u64);
+                    v[21] = json!(cid(&a.country));
+                    v[22] = json!(a.is_hosting_provider);
+                    v[23] = json!(a.is_vpn_provider);
+                    v[24] = json!(a.reputation_score.to_bits());
+                }
+                UnifiedIPAnalysis::IPv6(a) => {
+                    v[1] = json!(1u64);
+                    for (o, ad) in [(25usize, a.subnet_64), (41, a.subnet_48), (57, a.subnet_32)] {
+                        for (i, b) in ad.octets().iter().enumerate() {
+                            v[o + i] = json!(*b as u64);
+                        }
+                    }
+                    v[73] = json!(a.asn.is_some() as u64);
+                    v[74] = json!(a.asn.unwrap_or(0) as u64);
+                    v[75] = json!(a.country.is_some() as u64);
+                    v[76] = json!(cid(&a.country));
+                    v[77] = json!(a.is_hosting_provider);
+                    v[78] = json!(a.is_vpn_provider);
+                    v[79] = json!(a.reputation_score.to_bits());
+                }
+            }
+        }
+        // bool leaves of the inactive variant are observed as false
+        for i in [22usize, 23, 77, 78] {
+            if !v[i].is_boolean() {
+                v[i] = json!(false);
+            }
+        }
+        if let Some(r) = s.region {
+            v[80] = json!(1u64);
+            v[81] = json!(REGIONS.iter().position(|x| *x == r).unwrap_or(6) as u64);
+        }
+        Value::Array(v)
+    }
+
+    /// C13 (engine level, one step): add_node / evict_node / handle_node_failure of a peer that may be listed and may hold an arbitrary slot record
+    pub fn admission_step(case: &Value) -> Value {
+        use crate::security::verif_kani_security::driver as sec;
+        let rt = tokio::runtime::Builder::new_current_thread().enable_all().build().unwrap();
+        rt.block_on(async {
+            let mode = if case.get("validator_ok").and_then(|v| v.as_bool()).unwrap_or(false) { CloseGroupEnforcementMode::LogOnly } else { CloseGroupEnforcementMode::Strict };
+            let mut engine = DhtCoreEngine::new_with_validation_mode(NodeId::from_bytes([0u8; 32]), mode).unwrap();
+            let mut t = table(case);
+            let cap = u(case, "bucket_cap") as usize;
+            for bk in t.buckets.iter_mut() {
+                bk.max_size = cap;
+            }
+            *engine.routing_table.write().await = t;
+            *engine.ip_diversity_enforcer.write().await = sec::build(case);
+            {
+                let mut g = engine.geographic_diversity_enforcer.write().await;
+                g.max_per_region = u(case, "G.max") as usize;
+                g.region_counts.clear();
+                for (i, r) in REGIONS.iter().enumerate() {
+                    if un(case, &format!("G.regions@r{i}.present")) != 0 {
+                        g.region_counts.insert(*r, u(case, &format!("G.regions@r{i}.v0")) as usize);
+                    }
+                }
+            }
+            let x = id_in_bucket(raw32(case, "x"), case["__params"]["xb"].as_u64().unwrap_or(3) as usize);
+            let xid = NodeId::from_bytes(x);
+            let oid = NodeId::from_bytes(raw32(case, "o"));
+            {
+                let mut sl = engine.diversity_slots.write().await;
+                if let Some(r) = read_slots(case, "other") {
+                    sl.insert(oid.clone(), r);
+                }
+                if let Some(r) = read_slots(case, "x") {
+                    sl.insert(xid.clone(), r);
+                }
+            }
+            let v6 = case["__params"]["v6"].as_bool().unwrap_or(true);
+            let mut ip6 = [0u8; 16];
+            for i in 0..16 {
+                ip6[i] = u(case, &format!("x.ip6.{i}")) as u8;
+            }
+            let mut ip4 = [0u8; 4];
+            for i in 0..4 {
+                ip4[i] = u(case, &format!("x.ip4.{i}")) as u8;
+            }
+            let ip: std::net::IpAddr = if v6 { std::net::IpAddr::V6(std::net::Ipv6Addr::from(ip6)) } else { std::net::IpAddr::V4(std::net::Ipv4Addr::from(ip4)) };
+            let address = match u(case, "x.addr_kind") {
+                0 => std::net::SocketAddr::new(ip, u(case, "x.port") as u16).to_string(),
+                1 => ip.to_string(),
+                _ => "addr999".to_string(),
+            };
+            let mut out = serde_json::Map::new();
+            let ok = match case["__params"]["op"].as_str() {
+                Some("add") => {
+                    let mut node = mk(x, 999);
+                    node.address = address;
+                    engine.add_node(node).await.is_ok()
+                }
+                Some("evict") => engine.evict_node(&xid, EvictionReason::CloseGroupRejection).await.is_ok(),
+                _ => engine.handle_node_failure(xid.clone()).await.is_ok(),
+            };
+            out.insert("ok".into(), json!(ok));
+            sec::observe(&*engine.ip_diversity_enforcer.read().await, case, "post", &mut out);
+            {
+                let sl = engine.diversity_slots.read().await;
+                out.insert("post.slots@x".into(), flat_slots(sl.get(&xid)));
+                out.insert("post.slots@other".into(), flat_slots(sl.get(&oid)));
+            }
+            let listed = engine.routing_table.read().await.buckets.iter().any(|b| b.get_nodes().iter().any(|n| n.id == xid));
+            out.insert("listed".into(), json!(listed));
+            Value::Object(out)
+        })
+    }
+
     pub fn mutation(case: &Value) -> Value {
         let mut rt = table(case);
         let x = match case["__params"]["xb"].as_u64() {
@@ -315,6 +485,7 @@ fn verif_replay_entry() {
         "engine_ops" => driver::engine_ops(&case),
         "dispatch" => driver::dispatch(&case),
         "admission" => driver::admission(&case),
+        "admission_step" => driver::admission_step(&case),
         other => panic!("unknown driver {other}"),
     };
     println!("VERIF-OBS {}", obs);
